@@ -518,7 +518,7 @@ def twin_configs(v, rnd, quick):
     if adaptive:
         plan.append((1, 0, 3.0, 1))                           # tight tolerance, larger amplitude: rejected steps occur
     if not quick:
-        plan += [(2, 1, 0.1, 0), (3, 1, 1.0, 1 if adaptive else 0), (3, 0, 2.0, 0)]
+        plan += [(2, 1, 0.1, 0), (3, 1, 1.0, 1 if adaptive else 0), (3, 0, 2.0, 0), (1, 1, 2.0, 0), (2, 0, 0.1, 1 if adaptive else 0)]
     cfgs = []
     for i, (tw, yi, sc, ti) in enumerate(plan):
         T = 1.0 if tw == 2 else (3.0 if (adaptive and (ti == 0 or v["order"] == 8)) else (1.5 if adaptive else 2.0))
